@@ -49,10 +49,28 @@ def seeded():
   return "\n".join(out)
 
 
+def harmless():
+  out = ["| refactoring | file / functions | kind | check result |", "|---|---|---|---|"]
+  for p in sorted(glob.glob(os.path.join(HERE, "harmless", "*", "note.json"))):
+    m = json.load(open(p))
+    name = os.path.basename(os.path.dirname(p))
+    rc = m.get("check_exit")
+    if m.get("false_alarm"):
+      res = "**false alarm** (exit %s): %s" % (rc, esc((m.get("violations") or [""])[0][:160]))
+      if m.get("fixed_by"):
+        res += " - " + m["fixed_by"]
+    elif rc == 0:
+      res = "exit 0, all obligations discharged"
+    else:
+      res = "exit 2 UNDECIDED (no alarm): " + esc((m.get("undecided") or [""])[0].split("reason=")[-1][:160])
+    out.append("| %s | %s `%s` | %s | %s |" % (name, esc(m.get("file", "")), esc(", ".join(m.get("functions", []))[:120]), esc(m.get("kind", "")), res))
+  return "\n".join(out)
+
+
 def main():
   p = os.path.join(HERE, "DESIGN.md")
   s = open(p).read()
-  for tag, fn in (("FIXES", fixes), ("FINDINGS", findings), ("SEEDED", seeded)):
+  for tag, fn in (("FIXES", fixes), ("FINDINGS", findings), ("SEEDED", seeded), ("HARMLESS", harmless)):
     b, e = "<!-- BEGIN GENERATED %s -->" % tag, "<!-- END GENERATED %s -->" % tag
     if b in s and e in s:
       i, j = s.index(b) + len(b), s.index(e)
